@@ -83,8 +83,11 @@ def build(kinds, profile, scratch, seed):
         prev = (pos, ref, alts)
         gts = {"S1": s1_gt(k)}
         biallelic_plain = het is not None
-        gts["S2"] = ("1/0" if i % 2 == 0 else "1|0") if biallelic_plain else ("1/2" if k == "multi" else "0/0")
-        gts["S3"] = "1|0" if biallelic_plain else "./."
+        # records in which the first sample is not heterozygous but the others are: a processed record with an
+        # unphased target call next to phased ones
+        others_het = k in ("hom0", "hom1", "miss", "partial")
+        gts["S2"] = ("1/0" if i % 2 == 0 else "1|0") if (biallelic_plain or others_het) else ("1/2" if k == "multi" else "0/0")
+        gts["S3"] = "1|0" if (biallelic_plain or others_het) else "./."
         fmt = ["GT"]
         calls = {s: {"GT": g} for s, g in gts.items()}
         if any("|" in g for g in gts.values()):
@@ -121,24 +124,26 @@ def build(kinds, profile, scratch, seed):
         if k == "sym":
             info = (info + ";" if info != "." else "") + f"SVTYPE=DEL;END={pos + 30}"
         vcf.add("chr1", pos, ref, alts, [calls[s] for s in SAMPLES], id=rid, qual=qual, filt=filt, info=info, fmt=fmt)
-        truth["chr1"].append((pos, ref, alts, het))
+        truth["chr1"].append((pos, ref, alts, het if not others_het else (0, 1), {"S1": (1, 1) if k == "hom1" else (0, 0)} if others_het else {}))
     for i in range(2):
         p = 70 + 50 * i
         b = seqs[1][1][p]
         vcf.add("chr2", p, b, [synth.other_base(b)], [{"GT": "0/1"}, {"GT": "0/1"}, {"GT": "1|0", "PS": "9"}], fmt=["GT", "PS"])
-        truth["chr2"].append((p, b, [synth.other_base(b)], (0, 1)))
+        truth["chr2"].append((p, b, [synth.other_base(b)], (0, 1), {}))
     vcf_path = vcf.write(os.path.join(scratch, "in.vcf"))
     # reads: one long error-free read per haplotype and sample over each chromosome
     alns = []
     for ci, (cname, cseq) in enumerate(seqs):
-        vs, seen = [], set()
-        for pos, ref, alts, het in truth[cname]:
+        vs, seen, special = [], set(), []
+        for pos, ref, alts, het, per_sample in truth[cname]:
             if het is not None and pos not in seen and not alts[0].startswith("<"):
                 vs.append(synth.Var(pos, ref, alts))
+                special.append(per_sample)
                 seen.add(pos)
         for s in SAMPLES:
             for h in (0, 1):
-                q, cig = synth.hap_read(cseq, vs, [h] * len(vs), 20, len(cseq) - 20)
+                al = [(sp[s][h] if s in sp else h) for sp in special]
+                q, cig = synth.hap_read(cseq, vs, al, 20, len(cseq) - 20)
                 alns.append({"name": f"{s}_{cname}_h{h}", "chrom": cname, "start": 20, "cigar": cig, "seq": q, "rg": f"rg_{s}"})
     bam = os.path.join(scratch, "reads.bam")
     synth.write_bam(bam, [(n, len(s)) for n, s in seqs], alns, read_groups=[{"ID": f"rg_{s}", "SM": s} for s in SAMPLES])
